@@ -88,6 +88,11 @@ class C16(Prop):
                         else:
                             v = bbgen.bits_f32(x)
                             txt = f"{v}"
+                            if k % 3 == 2 and (s + e) % 3 == 0:
+                                # values that are infinite at single precision (legal in a bigWig): they come back as inf / -inf
+                                txt = ["inf", "-inf", "1e39", "-4e38"][(s + e) // 3 % 4]
+                                v = float("-inf") if txt.startswith("-") else float("inf")
+                                rep.tag("value_infinite_at_single_precision")
                             if k % 3 == 1 and (s + e) % 2 == 0:
                                 # a value written with dozens of digits, next to the midpoint of two single-precision numbers: the
                                 # value that must come back is the single nearest to the DECIMAL text
@@ -236,7 +241,13 @@ class C16(Prop):
                 if bed:
                     out.append((t[0], int(t[1]), int(t[2]), "\t".join(t[3:])))
                 else:
-                    out.append((t[0], int(t[1]), int(t[2]), struct.unpack("f", struct.pack("f", float(t[3])))[0]))   # the single the text denotes
+                    dv = float(t[3])
+                    fv = struct.unpack("f", struct.pack("f", dv))[0]                 # the single the text denotes
+                    if fv != fv or (abs(fv) == float("inf")) != (abs(dv) == float("inf")):
+                        # a finite text for an infinite value (or NaN): not the number that is stored
+                        out.append((t[0], int(t[1]), int(t[2]), "text `%s` for a value that is %r at single precision" % (t[3], fv)))
+                    else:
+                        out.append((t[0], int(t[1]), int(t[2]), fv))
             except (ValueError, IndexError, OverflowError):
                 out.append(("<line that is not a record>", ln[:80]))
         return out
